@@ -260,6 +260,28 @@ let run_case (f : string array) : string =
         | None -> "abn # model")
      | o -> failwith ("bad frame op " ^ o))
   | "hist" -> run_hist f
+  | "strhist" ->
+    let buf = ref (if f.(1) = "-1" then None else Some []) in
+    let target = ref (List.map (fun c -> zb (z_of_int (Char.code c))) (List.init 14 (String.get "initial-target"))) in
+    let outs = ref [] in
+    for i = 2 to Array.length f - 1 do
+      let parts = String.split_on_char ':' f.(i) in
+      let d = unhex (List.nth parts 1) in
+      let o = (match List.nth parts 0 with
+          | "rs" ->
+            (match x_ReadString d !buf with
+             | Some (((v, p), None), b) -> buf := b; Printf.sprintf "ok_%s_%s" (string_of_z p) (hx v)
+             | Some ((_, Some _), b) -> buf := b; "err"
+             | None -> "abn")
+          | "dec" ->
+            (match x_DecodeString d !target !buf with
+             | Some ((p, None), v) -> target := v; Printf.sprintf "ok_%s_%s" (string_of_z p) (hx v)
+             | Some ((_, Some _), _) -> "err"
+             | None -> "abn")
+          | o -> failwith ("bad strhist op " ^ o)) in
+      outs := o :: !outs
+    done;
+    String.concat " ; " (List.rev !outs) ^ " ; STABLE"
   | "rv" | "ro" | "ra" -> (try let d = unhex f.(1) in rres_str false (List.length d) (read_op f.(0) false d) with Too_deep -> "-")
   | "rva" | "roa" | "raa" -> (try let d = unhex f.(1) in rres_str false (List.length d) (read_op (String.sub f.(0) 0 2) true d) with Too_deep -> "-")
   | "rvc" | "roc" | "rac" -> (try let d = unhex f.(1) in rres_str true (List.length d) (read_op (String.sub f.(0) 0 2) false d) with Too_deep -> "-")
@@ -270,3 +292,31 @@ let run_case (f : string array) : string =
      | (_, Some _) -> "err")
   | "compose" -> run_compose f
   | _ -> failwith ("unknown op " ^ f.(0))
+
+(* ---------- --spec mode: what the SPECIFICATION (not the model of the code) says ---------- *)
+let spec_case (f : string array) : string =
+  match f.(0) with
+  | "f64" | "fp_parse" ->
+    (* C04: for input = optional ws (f64 only) + a complete JSON number literal: round_ne of its exact value *)
+    let d = unhex f.(1) in
+    let rec strip n l = (match l with b :: r when f.(0) = "f64" && List.mem (int_of_byte b) [32; 9; 13; 10] -> strip (n + 1) r | _ -> (n, l)) in
+    let (w, lit) = strip 0 d in
+    (match parse_spec_fast lit with
+     | None -> "-"
+     | Some (b, ovf) ->
+       (* shapes of the two recorded C04 findings *)
+       let digs = List.map int_of_byte lit in
+       let rec int_digits l seen = (match l with
+           | c :: r when c = 45 -> int_digits r seen
+           | c :: r when c = 48 && seen = 0 -> int_digits r 0
+           | c :: r when c >= 48 && c <= 57 -> int_digits r (seen + 1)
+           | _ -> seen) in
+       let rec exp_digits l = (match l with
+           | c :: r when c = 101 || c = 69 -> List.length (List.filter (fun c -> c >= 48 && c <= 57) r)
+           | _ :: r -> exp_digits r
+           | [] -> 0) in
+       let tag = (if int_digits digs 0 > 800 then " # shape=over-800-integer-digits"
+                  else if exp_digits digs >= 5 then " # shape=huge-exponent" else "") in
+       if ovf then "err" ^ tag
+       else Printf.sprintf "ok %s %d%s" (string_of_z b) (w + List.length lit) tag)
+  | _ -> "-"
